@@ -20,6 +20,7 @@ import (
 	"runtime/debug"
 	"sort"
 	"strings"
+	"sync"
 	"testing"
 	"time"
 
@@ -78,6 +79,12 @@ type Op struct {
 	// Perm, if set, repeats a batch request with its items in this order
 	// (item j of the repeat is item Perm[j] of the request).
 	Perm []int `json:"perm,omitempty"`
+	// FailCall k > 0: the k-th request this signing request makes to the beacon
+	// node (Domain / GenesisDomain) fails.
+	FailCall int `json:"fail_call,omitempty"`
+	// With: runs concurrently with the previous op (consecutive ops chain into a
+	// group); the node answers the first request of each only when all have asked.
+	With bool `json:"with,omitempty"`
 }
 
 // Case is a chain, a set of accounts and a list of signing requests.
@@ -88,14 +95,36 @@ type Case struct {
 	GVRSeed uint64 `json:"gvr_seed"`
 	// DomainTypes: spec name -> 4 bytes hex.
 	DomainTypes map[string]string `json:"domain_types"`
-	Accounts    []Acct            `json:"accounts"`
-	Ops         []Op              `json:"ops"`
+	// SpecMissing / SpecWrongType: spec keys the node does not deliver / delivers
+	// as a string.
+	SpecMissing   []string `json:"spec_missing,omitempty"`
+	SpecWrongType []string `json:"spec_wrong_type,omitempty"`
+	Accounts      []Acct   `json:"accounts"`
+	Ops           []Op     `json:"ops"`
 }
 
 var domainNames = []string{
 	"DOMAIN_BEACON_PROPOSER", "DOMAIN_BEACON_ATTESTER", "DOMAIN_RANDAO", "DOMAIN_SELECTION_PROOF",
 	"DOMAIN_AGGREGATE_AND_PROOF", "DOMAIN_SYNC_COMMITTEE", "DOMAIN_SYNC_COMMITTEE_SELECTION_PROOF",
 	"DOMAIN_CONTRIBUTION_AND_PROOF", "DOMAIN_BLOB_SIDECAR", "DOMAIN_DEPOSIT", "DOMAIN_VOLUNTARY_EXIT",
+}
+
+// specConstants: the domain types as the consensus specification (and, for the
+// builder domain, the builder specification) defines them.  They are the
+// reference where the node's spec does not deliver a value.
+var specConstants = map[string]string{
+	"DOMAIN_BEACON_PROPOSER":                "00000000",
+	"DOMAIN_BEACON_ATTESTER":                "01000000",
+	"DOMAIN_RANDAO":                         "02000000",
+	"DOMAIN_DEPOSIT":                        "03000000",
+	"DOMAIN_VOLUNTARY_EXIT":                 "04000000",
+	"DOMAIN_SELECTION_PROOF":                "05000000",
+	"DOMAIN_AGGREGATE_AND_PROOF":            "06000000",
+	"DOMAIN_SYNC_COMMITTEE":                 "07000000",
+	"DOMAIN_SYNC_COMMITTEE_SELECTION_PROOF": "08000000",
+	"DOMAIN_CONTRIBUTION_AND_PROOF":         "09000000",
+	"DOMAIN_BLOB_SIDECAR":                   "0b000000",
+	"DOMAIN_APPLICATION_BUILDER":            "00000001",
 }
 
 // builderDomainType is a constant of the builder specification (not of the chain).
@@ -200,7 +229,7 @@ func genCase(t *rapid.T) Case {
 			}
 		}
 	}
-	dutyEpoch := func() uint64 {
+	freeEpoch := func() uint64 {
 		switch rapid.IntRange(0, 9).Draw(t, "epochKind") {
 		case 0:
 			return rapid.Uint64Range(0, 400000).Draw(t, "anyEpoch")
@@ -215,9 +244,10 @@ func genCase(t *rapid.T) Case {
 			return uint64(int64(f) + int64(d))
 		}
 	}
-	dutySlot := func() uint64 {
-		return dutyEpoch()*c.SlotsPerEpoch + rapid.Uint64Range(0, c.SlotsPerEpoch-1).Draw(t, "slotInEpoch")
+	freeSlot := func() uint64 {
+		return freeEpoch()*c.SlotsPerEpoch + rapid.Uint64Range(0, c.SlotsPerEpoch-1).Draw(t, "slotInEpoch")
 	}
+	dutySlot, dutyEpoch := freeSlot, freeEpoch
 
 	// accounts: one account manager per vouch instance, so either local wallet
 	// accounts (plain / protecting) or Dirk-like multi signers; ordinary and
@@ -250,9 +280,63 @@ func genCase(t *rapid.T) Case {
 
 	kinds := []string{"attestation", "attestations", "attestations", "proposal", "randao", "slot-selections", "slot-selections",
 		"sync-roots", "sync-roots", "sync-selections", "sync-selections", "aggregate-and-proof", "contributions", "contributions", "registration"}
-	nOps := rapid.IntRange(1, 3).Draw(t, "nOps")
+	// Spec: occasionally the node does not deliver a domain type (mostly one of
+	// the optional ones) or delivers it with another Go type.
+	optional := []string{"DOMAIN_APPLICATION_BUILDER", "DOMAIN_APPLICATION_BUILDER", "DOMAIN_SYNC_COMMITTEE", "DOMAIN_SYNC_COMMITTEE_SELECTION_PROOF",
+		"DOMAIN_CONTRIBUTION_AND_PROOF", "DOMAIN_BLOB_SIDECAR"}
+	mandatory := []string{"DOMAIN_BEACON_PROPOSER", "DOMAIN_BEACON_ATTESTER", "DOMAIN_RANDAO", "DOMAIN_SELECTION_PROOF", "DOMAIN_AGGREGATE_AND_PROOF"}
+	switch k := rapid.IntRange(0, 39).Draw(t, "specDefect"); {
+	case k < 6:
+		c.SpecMissing = []string{rapid.SampledFrom(optional).Draw(t, "missing")}
+		if k == 0 {
+			if m := rapid.SampledFrom(optional).Draw(t, "missing2"); m != c.SpecMissing[0] {
+				c.SpecMissing = append(c.SpecMissing, m)
+			}
+		}
+	case k == 6:
+		c.SpecWrongType = []string{rapid.SampledFrom(optional).Draw(t, "wrongType")}
+	case k == 7:
+		c.SpecMissing = []string{rapid.SampledFrom(mandatory).Draw(t, "missingMandatory")}
+	}
+
+	nOps := rapid.IntRange(1, 5).Draw(t, "nOps")
+	var lastSlot uint64
+	haveSlot := false
 	for i := 0; i < nOps; i++ {
-		op := Op{Kind: rapid.SampledFrom(kinds).Draw(t, "op"), Seed: rapid.Uint64Range(0, 1<<24).Draw(t, "seed")}
+		op := Op{Seed: rapid.Uint64Range(0, 1<<24).Draw(t, "seed")}
+		if i > 0 && rapid.IntRange(0, 9).Draw(t, "with") < 3 {
+			// concurrently with the previous request, as the duties of one slot are
+			op.With = true
+			c.Ops[i-1].Perm = nil
+		}
+		switch {
+		case op.With:
+			// mostly another duty
+			op.Kind = rapid.SampledFrom(kinds).Draw(t, "op")
+			if op.Kind == c.Ops[i-1].Kind {
+				op.Kind = rapid.SampledFrom(kinds).Draw(t, "op2")
+			}
+		case i > 0 && rapid.IntRange(0, 9).Draw(t, "again") < 3:
+			// the same kind of request as an earlier one, on the same signer
+			op.Kind = c.Ops[rapid.IntRange(0, i-1).Draw(t, "earlier")].Kind
+		default:
+			op.Kind = rapid.SampledFrom(kinds).Draw(t, "op")
+		}
+		if rapid.IntRange(0, 9).Draw(t, "nodeFails") < 2 {
+			op.FailCall = rapid.SampledFrom([]int{1, 1, 1, 2, 3}).Draw(t, "failCall")
+		}
+		if op.With && haveSlot && rapid.IntRange(0, 9).Draw(t, "sameSlot") < 9 {
+			// duties of the same slot (hence epoch)
+			s := lastSlot
+			if rapid.IntRange(0, 3).Draw(t, "otherSlotOfEpoch") == 0 {
+				s = s/c.SlotsPerEpoch*c.SlotsPerEpoch + rapid.Uint64Range(0, c.SlotsPerEpoch-1).Draw(t, "slotInEpoch")
+			}
+			fixed := s
+			dutySlot = func() uint64 { return fixed }
+			dutyEpoch = func() uint64 { return fixed / c.SlotsPerEpoch }
+		} else {
+			dutySlot, dutyEpoch = freeSlot, freeEpoch
+		}
 		// accounts of the request
 		if batchOps[op.Kind] {
 			n := rapid.IntRange(1, nAcc).Draw(t, "batch")
@@ -314,7 +398,14 @@ func genCase(t *rapid.T) Case {
 			op.GasLimit = rapid.SampledFrom([]uint64{0, 1, 30000000, 36000000, 1 << 40}).Draw(t, "gasLimit")
 			op.Timestamp = rapid.Uint64Range(0, 1<<33).Draw(t, "timestamp")
 		}
-		if batchOps[op.Kind] && n > 1 && rapid.IntRange(0, 3).Draw(t, "permute") == 0 {
+		switch op.Kind {
+		case "registration":
+		case "sync-roots":
+			lastSlot, haveSlot = op.Epoch*c.SlotsPerEpoch, true
+		default:
+			lastSlot, haveSlot = op.Slot, true
+		}
+		if !op.With && batchOps[op.Kind] && n > 1 && rapid.IntRange(0, 3).Draw(t, "permute") == 0 {
 			op.Perm = rapid.Permutation(seq(n)).Draw(t, "perm")
 		}
 		c.Ops = append(c.Ops, op)
@@ -335,11 +426,125 @@ func seq(n int) []int {
 // ---------------------------------------------------------------------------
 
 type chainDouble struct {
-	spe      uint64
-	forks    []fork
-	gvr      chunk
-	types    map[string][4]byte
+	spe       uint64
+	forks     []fork
+	gvr       chunk
+	types     map[string][4]byte
+	missing   map[string]bool // not in the spec the node delivers
+	wrongType map[string]bool // delivered as a string instead of a phase0.DomainType
+
+	mu      sync.Mutex
+	calls   map[int]*callState // per invocation of a signing request (identified through the context)
+	barrier *barrier           // rendezvous of the requests of a concurrent group
+}
+
+// callState is what the double knows about one invocation of a signing request.
+type callState struct {
+	failAt   int // the failAt-th provider call of the invocation fails (0 = none)
+	n        int
+	failed   bool // a failure was really injected
+	arrived  bool
 	requests []string
+}
+
+// barrier holds the first provider call of every request of a concurrent
+// group until all of them have arrived (or finished), for a bounded time.
+type barrier struct {
+	need    int
+	arrived int
+	open    chan struct{}
+}
+
+const barrierWait = 400 * time.Millisecond
+
+type invocationKey struct{}
+
+func withInvocation(ctx context.Context, id int) context.Context {
+	return context.WithValue(ctx, invocationKey{}, id)
+}
+
+// begin registers an invocation before it is started.
+func (d *chainDouble) begin(id, failAt int) {
+	d.mu.Lock()
+	d.calls[id] = &callState{failAt: failAt}
+	d.mu.Unlock()
+}
+
+// group arms the rendezvous for n concurrent invocations.
+func (d *chainDouble) group(n int) {
+	d.mu.Lock()
+	d.barrier = &barrier{need: n, open: make(chan struct{})}
+	d.mu.Unlock()
+}
+
+func (d *chainDouble) ungroup() {
+	d.mu.Lock()
+	d.barrier = nil
+	d.mu.Unlock()
+}
+
+// arriveLocked counts an invocation at the barrier; returns the channel to wait on.
+func (d *chainDouble) arriveLocked(st *callState) chan struct{} {
+	if d.barrier == nil || st.arrived {
+		return nil
+	}
+	st.arrived = true
+	b := d.barrier
+	b.arrived++
+	if b.arrived == b.need {
+		close(b.open)
+	}
+	return b.open
+}
+
+// finished: an invocation that returned without asking the node counts as arrived.
+func (d *chainDouble) finished(id int) {
+	d.mu.Lock()
+	if st := d.calls[id]; st != nil {
+		d.arriveLocked(st)
+	}
+	d.mu.Unlock()
+}
+
+func (d *chainDouble) state(id int) callState {
+	d.mu.Lock()
+	defer d.mu.Unlock()
+	if st := d.calls[id]; st != nil {
+		return *st
+	}
+	return callState{}
+}
+
+// enter is the common part of every provider call: log, rendezvous, scripted failure.
+func (d *chainDouble) enter(ctx context.Context, what string) error {
+	id, ok := ctx.Value(invocationKey{}).(int)
+	if !ok {
+		return nil
+	}
+	d.mu.Lock()
+	st := d.calls[id]
+	if st == nil {
+		d.mu.Unlock()
+		return nil
+	}
+	st.requests = append(st.requests, what)
+	st.n++
+	fail := st.failAt > 0 && st.n == st.failAt
+	if fail {
+		st.failed = true
+	}
+	wait := d.arriveLocked(st)
+	d.mu.Unlock()
+	if wait != nil {
+		select {
+		case <-wait:
+		case <-time.After(barrierWait):
+		}
+	}
+	if fail {
+		return errors.New("scripted beacon node failure")
+	}
+	return nil
 }
 
 type fork struct {
@@ -348,7 +553,8 @@ type fork struct {
 }
 
 func newChain(c *Case) (*chainDouble, error) {
-	d := &chainDouble{spe: c.SlotsPerEpoch, gvr: root(c.GVRSeed, "genesis-validators-root"), types: map[string][4]byte{}}
+	d := &chainDouble{spe: c.SlotsPerEpoch, gvr: root(c.GVRSeed, "genesis-validators-root"), types: map[string][4]byte{},
+		missing: map[string]bool{}, wrongType: map[string]bool{}, calls: map[int]*callState{}}
 	if c.SlotsPerEpoch == 0 {
 		return nil, errors.New("slots per epoch is 0")
 	}
@@ -385,7 +591,33 @@ func newChain(c *Case) (*chainDouble, error) {
 			return nil, fmt.Errorf("no domain type for %q", op.Kind)
 		}
 	}
+	for _, n := range c.SpecMissing {
+		if _, ok := specConstants[n]; !ok {
+			return nil, fmt.Errorf("cannot drop %q from the spec", n)
+		}
+		d.missing[n] = true
+	}
+	for _, n := range c.SpecWrongType {
+		if _, ok := specConstants[n]; !ok {
+			return nil, fmt.Errorf("cannot mistype %q in the spec", n)
+		}
+		d.wrongType[n] = true
+	}
 	return d, nil
+}
+
+// absent: the signer cannot learn this domain type from the node's spec.
+func (d *chainDouble) absent(name string) bool { return d.missing[name] || d.wrongType[name] }
+
+// refType: the domain type the specification prescribes for a duty: the value
+// of the chain's spec, or, where the node does not deliver it, the constant of
+// the consensus / builder specification.
+func (d *chainDouble) refType(name string) [4]byte {
+	if d.absent(name) {
+		v, _ := hex4(specConstants[name])
+		return v
+	}
+	return d.types[name]
 }
 
 // versionAt: the fork version in force at an epoch (the last scheduled fork
@@ -409,13 +641,17 @@ func (d *chainDouble) domain(dt [4]byte, version [4]byte) chunk {
 	return computeDomain(dt, version, d.gvr)
 }
 
-func (d *chainDouble) Domain(_ context.Context, domainType phase0.DomainType, epoch phase0.Epoch) (phase0.Domain, error) {
-	d.requests = append(d.requests, fmt.Sprintf("Domain(%x, epoch %d)", domainType[:], epoch))
+func (d *chainDouble) Domain(ctx context.Context, domainType phase0.DomainType, epoch phase0.Epoch) (phase0.Domain, error) {
+	if err := d.enter(ctx, fmt.Sprintf("Domain(%x, epoch %d)", domainType[:], epoch)); err != nil {
+		return phase0.Domain{}, err
+	}
 	return phase0.Domain(d.domain([4]byte(domainType), d.versionAt(uint64(epoch)))), nil
 }
 
-func (d *chainDouble) GenesisDomain(_ context.Context, domainType phase0.DomainType) (phase0.Domain, error) {
-	d.requests = append(d.requests, fmt.Sprintf("GenesisDomain(%x)", domainType[:]))
+func (d *chainDouble) GenesisDomain(ctx context.Context, domainType phase0.DomainType) (phase0.Domain, error) {
+	if err := d.enter(ctx, fmt.Sprintf("GenesisDomain(%x)", domainType[:])); err != nil {
+		return phase0.Domain{}, err
+	}
 	return phase0.Domain(d.domain([4]byte(domainType), d.forks[0].version)), nil
 }
 
@@ -426,7 +662,13 @@ func (d *chainDouble) Spec(context.Context, *api.SpecOpts) (*api.Response[map[st
 		"SYNC_COMMITTEE_SIZE": uint64(512),
 	}
 	for n, v := range d.types {
-		m[n] = phase0.DomainType(v)
+		switch {
+		case d.missing[n]:
+		case d.wrongType[n]:
+			m[n] = fmt.Sprintf("%#x", v[:])
+		default:
+			m[n] = phase0.DomainType(v)
+		}
 	}
 	return &api.Response[map[string]any]{Data: m, Metadata: map[string]any{}}, nil
 }
@@ -568,7 +810,7 @@ func aggregateAndProofMessage(op *Op) chunk {
 
 // refDomain: the domain the specification prescribes.
 func refDomain(d *chainDouble, e *expectation) chunk {
-	dt := d.types[e.domainName]
+	dt := d.refType(e.domainName)
 	if e.genesis {
 		// builder-specs: compute_domain(DOMAIN_APPLICATION_BUILDER) with the
 		// genesis fork version and a zero genesis validators root
@@ -785,114 +1027,187 @@ func check(t ev.TB, c *Case) {
 		standardsigner.WithSpecProvider(chain),
 		standardsigner.WithDomainProvider(chain),
 	)
+	labels := map[string]bool{}
+	finish := func(nontrivial bool, viols []violation) {
+		var ls []string
+		for l := range labels {
+			ls = append(ls, l)
+		}
+		sort.Strings(ls)
+		ev.Case(nontrivial, ev.Hash(c), ls...)
+		if nontrivial {
+			ev.Sample(c)
+		}
+		for _, v := range viols {
+			ev.Violation(t, v.sig, c, "%s", v.detail)
+		}
+	}
 	if err != nil {
-		t.Fatalf("harness problem: cannot construct the signer: %v", err)
+		if len(chain.missing)+len(chain.wrongType) > 0 {
+			// the node's spec lacks a domain type: refusing to start is acceptable
+			labels["spec-incomplete:signer-refused-to-start"] = true
+			finish(false, nil)
+			return
+		}
+		labels["signer-not-constructed"] = true
+		finish(false, []violation{{"new:error", fmt.Sprintf("the signer cannot be constructed on a complete spec: %v", err)}})
+		return
 	}
 
 	var viols []violation
-	labels := map[string]bool{}
 	nontrivial := false
-	for oi := range c.Ops {
-		op := &c.Ops[oi]
-		identity := seq(len(op.Accounts))
-		exp, err := expect(c, op, identity)
-		if err != nil {
-			t.Fatalf("harness problem: %v", err)
+	failedKinds := map[string]bool{} // kinds of which an earlier request met a failing node
+	for start := 0; start < len(c.Ops); {
+		end := start + 1
+		for end < len(c.Ops) && c.Ops[end].With {
+			end++
 		}
-		labels["op:"+op.Kind] = true
-
-		// classification for the evidence
-		classes := map[string]bool{}
-		msgsDistinct := map[chunk]bool{}
-		denied := 0
-		for _, it := range exp.items {
-			classes[acctClass(c.Accounts[it.acct])] = true
-			msgsDistinct[it.message] = true
-			if c.Accounts[it.acct].Deny {
-				denied++
-			}
-		}
-		nearFork := false
-		if !exp.genesis {
-			for _, f := range chain.forks {
-				if f.epoch > 0 && exp.epoch+1 >= f.epoch && exp.epoch <= f.epoch+1 {
-					nearFork = true
-				}
-			}
-		}
-		mixed := batchOps[op.Kind] && len(classes) >= 2
-		if mixed {
-			labels["batch-mixes->=2-account-classes"] = true
-			if len(msgsDistinct) >= 2 {
-				labels["mixed-batch-with->=2-distinct-messages"] = true
-			}
-			_, a := classes["multi"]
-			_, b := classes["multi+dist"]
-			if a && b {
-				labels["mixed-batch:multi-signers"] = true
-			} else {
-				labels["mixed-batch:local-signers"] = true
-			}
-		}
-		if nearFork {
-			labels["duty-epoch-within-1-of-a-fork-epoch"] = true
-			for _, f := range chain.forks {
-				if f.epoch > 0 && f.epoch == exp.epoch {
-					labels["duty-epoch-is-a-fork-epoch"] = true
-				}
-				if f.epoch > 0 && f.epoch == exp.epoch+1 {
-					labels["duty-epoch-is-last-before-a-fork"] = true
-				}
-			}
-		}
-		if exp.genesis && len(chain.forks) > 1 && chain.forks[1].epoch == 0 {
-			labels["registration-with-several-forks-at-genesis"] = true
-		}
-		if mixed || nearFork {
-			nontrivial = true
-		}
-		if denied > 0 {
-			labels["request-with-denied-account"] = true
-		}
-		if len(op.Accounts) != len(msgsDistinctAccounts(op)) {
-			labels["batch-with-repeated-account"] = true
-		}
-
-		first := judgeCall(ctx, c, chain, svc, op, accts, pubs, identity, exp, &viols, "")
-		if op.Perm != nil && first != nil {
-			if !isPerm(op.Perm, len(op.Accounts)) || !batchOps[op.Kind] {
-				t.Fatalf("harness problem: bad permutation")
-			}
-			labels["permuted-repeat"] = true
-			exp2, err := expect(c, op, op.Perm)
+		n := end - start
+		exps := make([]*expectation, n)
+		for k := 0; k < n; k++ {
+			oi := start + k
+			op := &c.Ops[oi]
+			exp, err := expect(c, op, seq(len(op.Accounts)))
 			if err != nil {
 				t.Fatalf("harness problem: %v", err)
 			}
-			second := judgeCall(ctx, c, chain, svc, op, accts, pubs, op.Perm, exp2, &viols, " (permuted repeat)")
-			if second != nil {
-				for j, k := range op.Perm {
-					if second[j] != first[k] {
-						viols = append(viols, violation{op.Kind + ":permutation-changes-signature",
-							fmt.Sprintf("op %d: position %d of the permuted request (item %d) got %#x, the original request gave %#x", oi, j, k, second[j][:8], first[k][:8])})
-						break
+			exps[k] = exp
+			if classify(c, chain, op, exp, labels) {
+				nontrivial = true
+			}
+			if failedKinds[op.Kind] {
+				labels["request-after-a-failed-request-of-the-same-kind"] = true
+				nontrivial = true
+			}
+			if chain.absent(exp.domainName) {
+				labels["spec-lacks-the-domain-type-of-the-request"] = true
+				nontrivial = true
+			}
+		}
+		// run the group
+		results := make([]result, n)
+		if n == 1 {
+			chain.begin(start, c.Ops[start].FailCall)
+			results[0] = call(withInvocation(ctx, start), svc, &c.Ops[start], accts, seq(len(c.Ops[start].Accounts)))
+		} else {
+			labels["concurrent-group"] = true
+			for k := 1; k < n; k++ {
+				if exps[k].domainName != exps[0].domainName && !exps[k].genesis && !exps[0].genesis && exps[k].epoch == exps[0].epoch {
+					labels["concurrent-requests-of-different-duties-in-one-epoch"] = true
+					nontrivial = true
+				}
+			}
+			chain.group(n)
+			var wg sync.WaitGroup
+			for k := 0; k < n; k++ {
+				oi := start + k
+				chain.begin(oi, c.Ops[oi].FailCall)
+				wg.Add(1)
+				go func(k, oi int) {
+					defer wg.Done()
+					results[k] = call(withInvocation(ctx, oi), svc, &c.Ops[oi], accts, seq(len(c.Ops[oi].Accounts)))
+					chain.finished(oi)
+				}(k, oi)
+			}
+			wg.Wait()
+			chain.ungroup()
+		}
+		// judge
+		for k := 0; k < n; k++ {
+			oi := start + k
+			op := &c.Ops[oi]
+			st := chain.state(oi)
+			if st.failed {
+				labels["node-failure-during-request"] = true
+				failedKinds[op.Kind] = true
+			}
+			first := judge(c, chain, op, pubs, exps[k], results[k], st, &viols, "")
+			if n == 1 && op.Perm != nil && first != nil {
+				if !isPerm(op.Perm, len(op.Accounts)) || !batchOps[op.Kind] {
+					t.Fatalf("harness problem: bad permutation")
+				}
+				labels["permuted-repeat"] = true
+				exp2, err := expect(c, op, op.Perm)
+				if err != nil {
+					t.Fatalf("harness problem: %v", err)
+				}
+				id := 1000 + oi
+				chain.begin(id, 0)
+				res2 := call(withInvocation(ctx, id), svc, op, accts, op.Perm)
+				second := judge(c, chain, op, pubs, exp2, res2, chain.state(id), &viols, " (permuted repeat)")
+				if second != nil {
+					for j, k := range op.Perm {
+						if second[j] != first[k] {
+							viols = append(viols, violation{op.Kind + ":permutation-changes-signature",
+								fmt.Sprintf("op %d: position %d of the permuted request (item %d) got %#x, the original request gave %#x", oi, j, k, second[j][:8], first[k][:8])})
+							break
+						}
 					}
 				}
 			}
 		}
+		start = end
 	}
+	finish(nontrivial, viols)
+}
 
-	var ls []string
-	for l := range labels {
-		ls = append(ls, l)
+// classify adds the evidence labels of one request and says whether it meets
+// the non-trivial rule by itself.
+func classify(c *Case, chain *chainDouble, op *Op, exp *expectation, labels map[string]bool) bool {
+	labels["op:"+op.Kind] = true
+	classes := map[string]bool{}
+	msgsDistinct := map[chunk]bool{}
+	denied := 0
+	for _, it := range exp.items {
+		classes[acctClass(c.Accounts[it.acct])] = true
+		msgsDistinct[it.message] = true
+		if c.Accounts[it.acct].Deny {
+			denied++
+		}
 	}
-	sort.Strings(ls)
-	ev.Case(nontrivial, ev.Hash(c), ls...)
-	if nontrivial {
-		ev.Sample(c)
+	nearFork := false
+	if !exp.genesis {
+		for _, f := range chain.forks {
+			if f.epoch > 0 && exp.epoch+1 >= f.epoch && exp.epoch <= f.epoch+1 {
+				nearFork = true
+			}
+		}
 	}
-	for _, v := range viols {
-		ev.Violation(t, v.sig, c, "%s", v.detail)
+	mixed := batchOps[op.Kind] && len(classes) >= 2
+	if mixed {
+		labels["batch-mixes->=2-account-classes"] = true
+		if len(msgsDistinct) >= 2 {
+			labels["mixed-batch-with->=2-distinct-messages"] = true
+		}
+		_, a := classes["multi"]
+		_, b := classes["multi+dist"]
+		if a && b {
+			labels["mixed-batch:multi-signers"] = true
+		} else {
+			labels["mixed-batch:local-signers"] = true
+		}
 	}
+	if nearFork {
+		labels["duty-epoch-within-1-of-a-fork-epoch"] = true
+		for _, f := range chain.forks {
+			if f.epoch > 0 && f.epoch == exp.epoch {
+				labels["duty-epoch-is-a-fork-epoch"] = true
+			}
+			if f.epoch > 0 && f.epoch == exp.epoch+1 {
+				labels["duty-epoch-is-last-before-a-fork"] = true
+			}
+		}
+	}
+	if exp.genesis && len(chain.forks) > 1 && chain.forks[1].epoch == 0 {
+		labels["registration-with-several-forks-at-genesis"] = true
+	}
+	if denied > 0 {
+		labels["request-with-denied-account"] = true
+	}
+	if len(op.Accounts) != len(msgsDistinctAccounts(op)) {
+		labels["batch-with-repeated-account"] = true
+	}
+	return mixed || nearFork
 }
 
 func msgsDistinctAccounts(op *Op) map[int]bool {
@@ -917,14 +1232,15 @@ func isPerm(p []int, n int) bool {
 	return true
 }
 
-// judgeCall performs one request and judges every returned signature.  It
-// returns the signatures if the request produced a full set, else nil.
-func judgeCall(ctx context.Context, c *Case, chain *chainDouble, svc *standardsigner.Service, op *Op,
-	accts []e2wtypes.Account, pubs []e2types.PublicKey, order []int, exp *expectation, viols *[]violation, suffix string,
+// judge judges the outcome of one request: every returned signature must
+// verify.  It returns the signatures if the request produced a full set, else nil.
+func judge(c *Case, chain *chainDouble, op *Op, pubs []e2types.PublicKey, exp *expectation, res result, st callState,
+	viols *[]violation, suffix string,
 ) []phase0.BLSSignature {
-	chain.requests = chain.requests[:0]
-	res := call(ctx, svc, op, accts, order)
-	asked := strings.Join(chain.requests, ", ")
+	asked := strings.Join(st.requests, ", ")
+	if st.failed {
+		asked += fmt.Sprintf(" [request %d failed as scripted]", st.failAt)
+	}
 	where := fmt.Sprintf("%s%s slot %d epoch %d (asked the node for: %s)", op.Kind, suffix, op.Slot, exp.epoch, asked)
 	add := func(sig, format string, args ...any) {
 		*viols = append(*viols, violation{op.Kind + ":" + sig, where + ": " + fmt.Sprintf(format, args...)})
@@ -943,6 +1259,9 @@ func judgeCall(ctx context.Context, c *Case, chain *chainDouble, svc *standardsi
 	if res.err != nil {
 		if deniedSingle {
 			return nil // the signer refused; nothing was returned
+		}
+		if st.failed || chain.absent(exp.domainName) {
+			return nil // the node failed, or does not know the domain type: nothing was returned
 		}
 		add("error", "no signature, error %v", res.err)
 		return nil
